@@ -96,32 +96,6 @@ def _generate_unquoted_parts(string, only_printable=False, unsafe=None):
     yield string[previous_match_end:]  # Non-ASCII tail
 
 
-# NOTE: here, unsafe must be a container of bytes
-def unquote(string, only_printable=False, unsafe=None, normalize_space=False):
-    if "%" not in string:
-        if normalize_space:
-            return string.replace(" ", "%20")
-
-        return string
-
-    q = "".join(
-        _generate_unquoted_parts(string, only_printable=only_printable, unsafe=unsafe)
-    )
-
-    if normalize_space:
-        q = q.replace(" ", "%20")
-
-    return q
-
-
-# NOTE: to safely unquote we don't need to replace invalid character because it would
-# imply that the parsed url was invalid from the start (except for spaces)
-
-UNSAFE_FOR_AUTH_ITEM = b" %@:/?#"
-UNSAFE_FOR_PATH = b" %/?#"
-UNSAFE_FOR_QUERY_ITEM = b" %&=#"
-UNSAFE_FOR_FRAGMENT = b" %"
-
 NON_ASCII_RE = re.compile("[^\x00-\x7f]")
 NETLOC_DELIMITERS = "/?#@:"
 
@@ -136,17 +110,51 @@ def quote_netloc_lookalike_match(match):
     return c
 
 
-# NOTE: those method should only be used on parsed urls to canonicalize/normalize.
-def safely_unquote_auth_item(string):
-    string = unquote(
-        string, only_printable=True, normalize_space=True, unsafe=UNSAFE_FOR_AUTH_ITEM
+# NOTE: here, unsafe must be a container of bytes
+def unquote(
+    string,
+    only_printable=False,
+    unsafe=None,
+    normalize_space=False,
+    quote_netloc_lookalikes=False,
+):
+    if "%" not in string:
+        if normalize_space:
+            return string.replace(" ", "%20")
+
+        return string
+
+    q = "".join(
+        _generate_unquoted_parts(string, only_printable=only_printable, unsafe=unsafe)
     )
+
+    if normalize_space:
+        q = q.replace(" ", "%20")
 
     # NOTE: urlsplit refuses a netloc containing characters whose NFKC form
     # holds a netloc delimiter (e.g. a fullwidth "@"), so they must stay quoted
-    return NON_ASCII_RE.sub(quote_netloc_lookalike_match, string)
+    if quote_netloc_lookalikes:
+        q = NON_ASCII_RE.sub(quote_netloc_lookalike_match, q)
+
+    return q
 
 
+# NOTE: to safely unquote we don't need to replace invalid character because it would
+# imply that the parsed url was invalid from the start (except for spaces)
+
+UNSAFE_FOR_AUTH_ITEM = b" %@:/?#"
+UNSAFE_FOR_PATH = b" %/?#"
+UNSAFE_FOR_QUERY_ITEM = b" %&=#"
+UNSAFE_FOR_FRAGMENT = b" %"
+
+# NOTE: those method should only be used on parsed urls to canonicalize/normalize.
+safely_unquote_auth_item = partial(
+    unquote,
+    only_printable=True,
+    normalize_space=True,
+    unsafe=UNSAFE_FOR_AUTH_ITEM,
+    quote_netloc_lookalikes=True,
+)
 safely_unquote_path = partial(
     unquote, only_printable=True, normalize_space=True, unsafe=UNSAFE_FOR_PATH
 )
